@@ -65,6 +65,7 @@ def parse (toks : List String) : Option Op :=
     let c ← if ccid == "none" then some none else (Hex.ofHex ccid).map some
     pure (.deposit (← signers? sg) (← addr? rel) (← nat? chain) (← Hex.ofHex id) c true)
   | ["admit", sg] => do pure (.submit (← signers? sg))
+  | ["admitx", _, derived] => do pure (.submit (← signers? derived))
   | ["refresh", o] => if o == "-" then some (.refresh none) else do pure (.refresh (some (← addr? o)))
   | ["restart"] => some .restart
   | ["sig", sg, a, cid, subject, sig, _] => do
@@ -175,7 +176,7 @@ def outcome (s : State) (op : Op) (dry : Bool) : State × String :=
 
 def dryable : List String → Bool
   | [] => false
-  | t :: _ => !(["key", "height", "time", "dump", "dry", "admit", "refresh", "restart", "assetbind"].contains t)
+  | t :: _ => !(["key", "height", "time", "dump", "dry", "admit", "admitx", "refresh", "restart", "assetbind"].contains t)
 
 def step (s : State) (toks : List String) : State × String :=
   match toks with
